@@ -470,3 +470,223 @@ def judge(chk, binary, r, rows, tags, thorough, liveness):
     return distinct, validated
 
 
+
+
+# ------------------------------------------------------------------------------- nextest's wiring
+# A real TestRunner (public API) over scripted test binaries; see harness/src/fq_runner.rs.
+
+BIN_IDS = ["pkg", "pkg::bin", "pkg::bench/b", "pkg-x", "pkg::a/b", "other", "pkg::bin2"]
+TEST_NAMES = ["alpha", "beta", "mod::gamma", "Zeta", "a_1", "a::b", "z", "m", "k::t", "B", "tests::x", "y"]
+
+RUNNER_F7 = dict(op="runner", test_threads=3, capture="split", retries=0, groups={"g": 2},
+                 binaries=[dict(id="pkg", tests=[
+                     dict(name="a", sleep_ms=30, group="g", threads_required=1),
+                     dict(name="b", sleep_ms=30, group="g", threads_required=2),
+                     dict(name="c", sleep_ms=120, threads_required=2)])], tag="runner-F7")
+
+
+def py_components(s):
+    if "::" not in s:
+        return (s, 0, "", "")
+    pkg, suffix = s.split("::", 1)
+    if "/" not in suffix:
+        return (pkg, 1, "", suffix)
+    kind, name = suffix.split("/", 1)
+    return (pkg, 2, kind, name)
+
+
+def gen_runner(r, force_serial=None):
+    tt = r.choice([1, 2, 2, 3, 4])
+    # CaptureStrategy::Combined is not used: in a debug build the real runner aborts on it with
+    # "IO Safety violation: owned file descriptor already closed" (test_command/unix.rs hands one
+    # fd to three owners) -- outside C08/C14, reported in docs/notes/C08.md
+    capture = r.choice(["split", "split", "split", "none"])
+    if force_serial == "none":
+        capture, tt = "none", r.choice([2, 3, 4])
+    elif force_serial == "j1":
+        capture, tt = "split", 1
+    groups = {f"g{k}": r.choice([1, 1, 2, 3]) for k in range(r.choice([0, 1, 1, 2]))}
+    gw = {g: r.choice([1, 1, 2, "num-test-threads"]) for g in groups}   # uniform weight per group (outside F7's class)
+    names = list(TEST_NAMES)
+    r.shuffle(names)
+    bins = r.sample(BIN_IDS, r.choice([1, 2, 2, 3]))
+    total = r.randint(3, 8)
+    binaries = [dict(id=b, tests=[]) for b in bins]
+    retries = r.choice([0, 0, 1, 2])
+    for j in range(total):
+        g = r.choice([None] + list(groups)) if groups else None
+        t = dict(name=names[j], sleep_ms=r.choice([25, 35, 45, 60]), prio=r.choice([0, 0, 0, 5, -5, 100, 1]))
+        if g is not None:
+            t["group"] = g
+            t["threads_required"] = gw[g]
+        else:
+            tr = r.choice([None, None, 1, 2, 3, "num-test-threads"])
+            if tr is not None:
+                t["threads_required"] = tr
+        if retries and r.random() < 0.25:
+            t["fail_until"] = r.choice([1, 1, 2, 3])
+        r.choice(binaries)["tests"].append(t)
+    binaries = [b for b in binaries if b["tests"]]
+    sc = dict(op="runner", test_threads=tt, capture=capture, retries=retries, groups=groups, binaries=binaries,
+              tag="runner")
+    if r.random() < 0.2:
+        sc["cli_test_threads"] = r.choice([1, 2, 3])
+    return sc
+
+
+def runner_expect(sc):
+    teff = 1 if sc["capture"] == "none" else sc.get("cli_test_threads") or sc["test_threads"]
+    tests = []
+    for b in sc["binaries"]:
+        for t in b["tests"]:
+            tr = t.get("threads_required", 1)
+            w = teff if tr == "num-test-threads" else tr
+            tests.append(dict(bin=b["id"], name=t["name"], prio=t.get("prio", 0), w=w, group=t.get("group"),
+                              fail_until=t.get("fail_until", 0)))
+    order = sorted(tests, key=lambda t: (-t["prio"], py_components(t["bin"]), t["name"]))
+    return teff, tests, [(t["bin"], t["name"]) for t in order]
+
+
+def runner_oracle(sc, res):
+    """checks the documented limits / slots / order on the scripted binaries' own log"""
+    fails = []
+    if "puppet" not in res:
+        return [("protocol", f"runner did not run: {json.dumps(res)[:300]}")]
+    teff, tests, order = runner_expect(sc)
+    by = {(t["bin"], t["name"]): t for t in tests}
+    S, E = {}, {}
+    seq = []
+    for line in res["puppet"]:
+        f = line.split(" ")
+        if f[0] == "S":
+            key = (f[1], f[2], int(f[7]))
+            S[key] = dict(t=int(f[3]), gslot=f[4], group=f[5], grslot=f[6])
+            seq.append(key)
+        elif f[0] == "E":
+            E[(f[1], f[2], int(f[4]))] = int(f[3])
+    retries = sc.get("cli_retries", sc["retries"])
+    for key, s in S.items():
+        t = by.get(key[:2])
+        if t is None:
+            fails.append(("protocol", f"unknown test ran: {key}"))
+            continue
+        # environment
+        want_group = t["group"] if t["group"] else "@global"
+        if s["group"] != want_group:
+            fails.append(("shape", f"{key}: NEXTEST_TEST_GROUP={s['group']} expected {want_group}"))
+        if not s["gslot"].isdigit():
+            fails.append(("shape", f"{key}: NEXTEST_TEST_GLOBAL_SLOT={s['gslot']}"))
+        elif int(s["gslot"]) >= teff:
+            fails.append(("bounded", f"{key}: global slot {s['gslot']} >= test-threads {teff}"))
+        if t["group"]:
+            if not s["grslot"].isdigit():
+                fails.append(("shape", f"{key}: NEXTEST_TEST_GROUP_SLOT={s['grslot']} for a test in group {t['group']}"))
+            elif int(s["grslot"]) >= sc["groups"][t["group"]]:
+                fails.append(("bounded", f"{key}: group slot {s['grslot']} >= max-threads {sc['groups'][t['group']]}"))
+        elif s["grslot"] != "none":
+            fails.append(("shape", f"{key}: NEXTEST_TEST_GROUP_SLOT={s['grslot']} for a test without group"))
+        first = S.get((key[0], key[1], 1))
+        if first and (first["gslot"], first["grslot"]) != (s["gslot"], s["grslot"]):
+            fails.append(("stable", f"{key}: slots {s['gslot']}/{s['grslot']} differ from attempt 1 {first['gslot']}/{first['grslot']}"))
+        # who is alive when this process starts (by the scripts' own clocks)
+        alive = [k for k, x in S.items() if x["t"] <= s["t"] and E.get(k, 1 << 80) > s["t"]]
+        load = sum(min(by[k[:2]]["w"], teff) for k in alive if k[:2] in by)
+        if load > teff:
+            fails.append(("limit", f"when {key} started: alive {alive}, capped threads-required sum {load} > {teff}"))
+        if sc["capture"] == "none" and len(alive) > 1:
+            fails.append(("serial", f"no-capture: {alive} alive at once"))
+        if t["group"]:
+            gm = sc["groups"][t["group"]]
+            gl = sum(min(by[k[:2]]["w"], gm) for k in alive if by.get(k[:2], {}).get("group") == t["group"])
+            if gl > gm:
+                fails.append(("limit", f"when {key} started: group {t['group']} load {gl} > max-threads {gm}"))
+        for k in alive:
+            if k != key and S[k]["gslot"] == s["gslot"]:
+                fails.append(("unique", f"{key} and {k} alive together with global slot {s['gslot']}"))
+            if k != key and t["group"] and by.get(k[:2], {}).get("group") == t["group"] and S[k]["grslot"] == s["grslot"]:
+                fails.append(("unique", f"{key} and {k} alive together with slot {s['grslot']} of group {t['group']}"))
+    # attempts: fail_until = k means attempts 1..k fail
+    for t in tests:
+        n = len([k for k in S if k[:2] == (t["bin"], t["name"])])
+        want = min(t["fail_until"], retries) + 1
+        if n == 0:
+            fails.append(("liveness", f"test {t['bin']} {t['name']} never ran"))
+        elif n != want:
+            fails.append(("protocol", f"test {t['bin']} {t['name']} ran {n} times, expected {want}"))
+    if teff == 1:
+        firsts = [k[:2] for k in seq if k[2] == 1]
+        if firsts != [o for o in order if o in firsts] or len(firsts) != len(order):
+            fails.append(("order", f"serial process order {firsts} is not priority/binary-id/name order {order}"))
+        ev = [tuple(x) for x in res.get("started", [])]
+        if ev != [o for o in order if o in ev]:
+            fails.append(("order", f"serial TestStarted order {ev} is not {order}"))
+    return fails
+
+
+def runner_f7_shape(sc, res):
+    if "puppet" not in res:
+        return False
+    ran = {tuple(l.split(" ")[1:3]) for l in res["puppet"] if l.startswith("S ")}
+    missing = [t for b in sc["binaries"] for t in b["tests"] if (b["id"], t["name"]) not in ran]
+    weights = {}
+    for b in sc["binaries"]:
+        for t in b["tests"]:
+            if t.get("group"):
+                weights.setdefault(t["group"], set()).add(t.get("threads_required", 1))
+    return bool(missing) and all(t.get("group") for t in missing) and any(len(v) > 1 for v in weights.values())
+
+
+def run_runner_scenarios(chk, binary, r, thorough, tags, prop, with_f7):
+    """corr:runner-wiring: returns number of scenarios validated"""
+    scs = [dict(RUNNER_F7)] if with_f7 else []
+    scs += [gen_runner(r, "none"), gen_runner(r, "j1"), gen_runner(r, "j1")]
+    while len(scs) < (60 if thorough else 12):
+        scs.append(gen_runner(r))
+    impl = vlib.run_impl(binary, "fq", [{k: v for k, v in s.items() if k != "tag"} for s in scs], timeout=900)
+    # model: serial start order = priority_queue (Model/Priority.v)
+    serial = [(s, i) for s, i in zip(scs, impl) if runner_expect(s)[0] == 1 and "started" in i]
+    exprs = []
+    for s, _ in serial:
+        pts = [f"mkpt {vlib.coq_str(b['id'])} {vlib.coq_str(t['name'])} ({t.get('prio', 0)})%Z"
+               for b in s["binaries"] for t in b["tests"]]
+        exprs.append("map (fun t => N.of_nat (length (pt_bin t)) :: pt_bin t ++ pt_name t) (priority_queue "
+                     + coq_list(pts) + ")")
+    model = vlib.coq_eval("fqrun" + prop.lower(), ["Base.Str", "Model.Priority"], exprs,
+                          "From Coq Require Import ZArith.") if exprs else []
+    model_order = {}
+    for (s, i), m in zip(serial, model):
+        model_order[id(s)] = [(vlib.decode_str(e[1:1 + e[0]]), vlib.decode_str(e[1 + e[0]:])) for e in m]
+    n = 0
+    for s, i in zip(scs, impl):
+        chk.count("runner_cases")
+        chk.count(f"runner_capture={s['capture']}")
+        chk.count(f"runner_test_threads_effective={runner_expect(s)[0]}")
+        if s.get("retries"):
+            chk.count("runner_with_retries")
+        fails = runner_oracle(s, i)
+        mine = [f for f in fails if f[0] in tags]
+        live = [f for f in fails if f[0] == "liveness"]
+        err = isinstance(i.get("stats"), dict) and "execute_error" in i["stats"]
+        if mine:
+            chk.violation("counterexample", "oracle:runner-" + mine[0][0],
+                          dict(input=s, clause=[f[1] for f in mine], impl=i))
+            return n
+        if live or err:
+            if with_f7 and f7_listed() and runner_f7_shape(s, i):
+                chk.count("known_finding_F7_observed_through_runner")
+                chk.known_finding(F7_WHAT)
+            elif "liveness" in tags or with_f7:
+                chk.violation("counterexample", "oracle:runner-liveness",
+                              dict(input=s, clause=[f[1] for f in live] or ["runner failed"], impl=i))
+                return n
+        if id(s) in model_order:
+            ev = [tuple(x) for x in i.get("started", [])]
+            if ev != model_order[id(s)]:
+                chk.violation("broken-obligation", "corr:runner-serial-order",
+                              dict(input=s, impl=ev, model=model_order[id(s)],
+                                   note="the oracle accepted the order; model and implementation differ"),
+                              no_input=True)
+                return n
+        n += 1
+    chk.sample(dict(runner_scenario=scs[-1], puppet_log=impl[-1].get("puppet", [])[:8]))
+    return n
